@@ -196,10 +196,9 @@ def bulkLoad (s : S) (t : Tn) (items : List Item) : S × Except Err (Nat × Nat)
   let newIds := dedupNat ((batch.map (·.1)).filter fun g => !(alookup g s.docs).isSome)
   if t.maxv < count s t + newIds.length then (s, .error .resourceExhausted) else
   let s1 := if newIds.isEmpty then s else setCount s t (count s t + newIds.length)
-  let (s2, loaded, failed) := loadAll s1 batch
-  let now := (newIds.filter fun g => (alookup g s2.docs).isSome).length
-  let s3 := decCount s2 t (newIds.length - now)
-  (noteInserts s3 t now, .ok (loaded, failed + invalid))
+  let r := loadAll s1 batch
+  let now := (newIds.filter fun g => (alookup g r.1.docs).isSome).length
+  (noteInserts (decCount r.1 t (newIds.length - now)) t now, .ok (r.2.1, r.2.2 + invalid))
 
 /-- `Delete` -/
 def delete (s : S) (t : Tn) (lid : Nat) (ns : String) : S × Except Err Bool :=
@@ -347,11 +346,12 @@ inductive Op
   | bdIds (t : Tn) (lids : List Nat) (ns : String)
   | bdFilter (t : Tn) (f : Filter) (ns : String)
   | bulkInsert (t : Tn) (items : List Item)
+  | bulkLoad (t : Tn) (items : List Item)
   | probe (t : Tn)
   | restart
 
 def Op.tenant : Op → Option Tn
-  | .insert t .. | .delete t .. | .update t .. | .bdIds t .. | .bdFilter t .. | .bulkInsert t .. | .probe t => some t
+  | .insert t .. | .delete t .. | .update t .. | .bdIds t .. | .bdFilter t .. | .bulkInsert t .. | .bulkLoad t .. | .probe t => some t
   | .restart => none
 
 def step (parse : String → Option Nat) (ts : List Tn) (s : S) : Op → S
@@ -361,6 +361,7 @@ def step (parse : String → Option Nat) (ts : List Tn) (s : S) : Op → S
   | .bdIds t lids ns => (batchDeleteIds s t lids ns).1
   | .bdFilter t f ns => (batchDeleteFilter parse s t f ns).1
   | .bulkInsert t items => (bulkInsert s t items).1
+  | .bulkLoad t items => (bulkLoad s t items).1
   | .probe t => probe s t
   | .restart => restart s ts
 
